@@ -73,6 +73,20 @@ impl r2d2::ManageConnection for RMgr {
     }
 }
 
+/// Polls the inner future inside `catch_unwind`.
+struct CatchUnwind<F>(std::pin::Pin<Box<F>>);
+impl<F: std::future::Future> std::future::Future for CatchUnwind<F> {
+    type Output = Result<F::Output, ()>;
+    fn poll(mut self: std::pin::Pin<&mut Self>, cx: &mut std::task::Context<'_>) -> std::task::Poll<Self::Output> {
+        let inner = self.0.as_mut();
+        match std::panic::catch_unwind(std::panic::AssertUnwindSafe(|| inner.poll(cx))) {
+            Ok(std::task::Poll::Ready(v)) => std::task::Poll::Ready(Ok(v)),
+            Ok(std::task::Poll::Pending) => std::task::Poll::Pending,
+            Err(_) => std::task::Poll::Ready(Err(())),
+        }
+    }
+}
+
 // ------------------------------------------------------------------ backend abstraction
 
 enum AnyPool {
@@ -162,13 +176,15 @@ impl AnyConn {
             AnyConn::Diesel(c) => c.interact(|c| diesel_user_version(c).map(|_| ())).await.map_err(|e| format!("{}", e))?.map_err(|e| format!("{}", e)),
         }
     }
+    /// true if the panic was reported as an error (a panic that comes out of `interact().await` itself is
+    /// C14's business; here it only must not take the history down)
     async fn poison(&self) -> bool {
         let r = match self {
-            AnyConn::Sqlite(c) => c.interact(|_| -> () { std::panic::panic_any(InjectedPanic(15)) }).await.is_err(),
-            AnyConn::R2d2(c) => c.interact(|_| -> () { std::panic::panic_any(InjectedPanic(15)) }).await.is_err(),
-            AnyConn::Diesel(c) => c.interact(|_| -> () { std::panic::panic_any(InjectedPanic(15)) }).await.is_err(),
+            AnyConn::Sqlite(c) => CatchUnwind(Box::pin(c.interact(|_| -> () { std::panic::panic_any(InjectedPanic(15)) }))).await.map(|r| r.is_err()),
+            AnyConn::R2d2(c) => CatchUnwind(Box::pin(c.interact(|_| -> () { std::panic::panic_any(InjectedPanic(15)) }))).await.map(|r| r.is_err()),
+            AnyConn::Diesel(c) => CatchUnwind(Box::pin(c.interact(|_| -> () { std::panic::panic_any(InjectedPanic(15)) }))).await.map(|r| r.is_err()),
         };
-        r
+        r.unwrap_or(false)
     }
     /// Waits (without going through interact()) until no closure holds the connection any more.
     async fn wait_unlocked(&self) {
@@ -200,23 +216,25 @@ pub fn history(backend: Backend, seed: u64, idx: u64) -> Case {
     let lifo = rng.chance(1, 2);
     // diesel recycling method
     let diesel_method = rng.below(5);
+    // where the SyncWrapper sends its blocking work (the tasks themselves are always polled by tokio)
+    let runtime = if rng.chance(1, 4) { Runtime::AsyncStd1 } else { Runtime::Tokio1 };
     let rt = tokio::runtime::Builder::new_multi_thread().worker_threads(2).max_blocking_threads(4).enable_time().build().expect("runtime");
     let mut viol: Vec<Violation> = Vec::new();
     let mut log: Vec<String> = Vec::new();
     let mut counters: BTreeMap<String, u64> = BTreeMap::new();
     let bad_fn: Arc<Mutex<HashSet<u64>>> = Arc::new(Mutex::new(HashSet::new()));
-    let config_desc = format!("backend={:?} max_size={} lifo={} diesel_method={}", backend, max_size, lifo, diesel_method);
+    let config_desc = format!("backend={:?} runtime={:?} max_size={} lifo={} diesel_method={}", backend, runtime, max_size, lifo, diesel_method);
     let mut nontrivial = false;
     rt.block_on(async {
         let qm = if lifo { deadpool::managed::QueueMode::Lifo } else { deadpool::managed::QueueMode::Fifo };
         let pool = match backend {
             Backend::Sqlite => {
                 let cfg = deadpool_sqlite::Config::new(":memory:");
-                AnyPool::Sqlite(cfg.builder(Runtime::Tokio1).expect("builder").max_size(max_size).queue_mode(qm).build().expect("build"))
+                AnyPool::Sqlite(cfg.builder(runtime).expect("builder").max_size(max_size).queue_mode(qm).build().expect("build"))
             }
             Backend::R2d2 => {
                 let sh = Arc::new(RShared::default());
-                let m = deadpool_r2d2::Manager::new(RMgr(sh.clone()), Runtime::Tokio1);
+                let m = deadpool_r2d2::Manager::new(RMgr(sh.clone()), runtime);
                 AnyPool::R2d2(deadpool_r2d2::Pool::builder(m).max_size(max_size).queue_mode(qm).build().expect("build"), sh)
             }
             Backend::Diesel => {
@@ -236,7 +254,7 @@ pub fn history(backend: Backend, seed: u64, idx: u64) -> Case {
                         }
                     })),
                 };
-                let m = deadpool_diesel::sqlite::Manager::from_config(":memory:", Runtime::Tokio1, ManagerConfig { recycling_method: method });
+                let m = deadpool_diesel::sqlite::Manager::from_config(":memory:", runtime, ManagerConfig { recycling_method: method });
                 AnyPool::Diesel(deadpool_diesel::sqlite::Pool::builder(m).max_size(max_size).queue_mode(qm).build().expect("build"))
             }
         };
